@@ -412,7 +412,7 @@ func runC18(c *Ctx) {
 			if i == j {
 				continue
 			}
-			c.obI("R18.5", s2, "one-certificate-source-per-config", !pathExists(f, s1, s2, nil, nil), "the certificate sources are alternatives: once Certificates was set from one source no later store adds another", "a path sets Certificates from one source and then from another: the configuration presents two certificates")
+			c.obI("R18.5", s2, "one-certificate-source-per-config", !pathExistsAfter(f, s1, s2), "the certificate sources are alternatives: once Certificates was set from one source no later store adds another", "a path sets Certificates from one source and then from another: the configuration presents two certificates")
 		}
 	}
 	// error discipline
